@@ -766,3 +766,104 @@ def calls_of(path, *suffixes):
             if not suffixes or any(d.endswith(s) for s in suffixes):
                 out.append(e)
     return out
+
+
+def calls_under(root, descs=None, vals=None):
+    """The call nodes evaluated by `root` under assumptions, in evaluation order, plus the branch conditions that stayed undecided.
+    descs: {description of a boolean expression: truth}; vals: {description of a scrutinee: enumerated value (thir.V form)}.
+    An `if` follows the assumed truth of its condition (negations, && and || folded), `if let` / `match` on an assumed scrutinee follow
+    pattern semantics; everything undecided contributes both sides.  Closures are not entered.  Returns (calls, undecided)."""
+    descs = descs or {}
+    vals = vals or {}
+    out, und = [], []
+
+    def truth(c):
+        cp = thir.peel(c)
+        if not isinstance(cp, dict):
+            return None
+        if cp.get("k") == "lit" and isinstance(cp.get("b"), bool):
+            return cp["b"]
+        if cp.get("k") == "un" and cp.get("op") == "Not":
+            t = truth(cp["e"])
+            return None if t is None else (not t)
+        if cp.get("k") == "logic":
+            a, b = truth(cp["a"]), truth(cp["b"])
+            if cp["op"] == "and":
+                if a is False or b is False:
+                    return False
+                return True if (a and b) else None
+            if a is True or b is True:
+                return True
+            return False if (a is False and b is False) else None
+        if cp.get("k") == "letx":
+            sd = desc(cp["e"]).lstrip("^")
+            if sd in vals:
+                r = thir.pat_matches(cp["p"], vals[sd], None)
+                return None if r is None else bool(r)
+            return None
+        me = matches_as_eq(cp)
+        core, neg = split_not(me[0] if (me is not None and me[1]) else ("Not " + me[0] if me is not None else desc(cp)))
+        core = core.lstrip("^")
+        if core in descs:
+            return descs[core] != neg
+        if cp.get("k") == "match" and cp.get("src") == "Normal":
+            sd = desc(cp["e"]).lstrip("^")
+            if sd in vals:
+                i = thir.first_arm(cp, vals[sd])
+                if i is not None:
+                    b = thir.peel(cp["arms"][i]["b"])
+                    if isinstance(b, dict) and b.get("k") == "lit" and isinstance(b.get("b"), bool):
+                        return b["b"]
+        return None
+
+    def visit(e):
+        if isinstance(e, list):
+            for x in e:
+                visit(x)
+            return
+        if not isinstance(e, dict) or is_tracing(e):
+            return
+        k = e.get("k")
+        if k == "closure":
+            return
+        if k == "if":
+            c = e.get("c")
+            cp = thir.peel(c)
+            visit(cp["e"] if isinstance(cp, dict) and cp.get("k") == "letx" else c)
+            t = truth(c)
+            if t is None:
+                und.append(desc(c))
+            if t is not False:
+                visit(e.get("t"))
+            if t is not True:
+                visit(e.get("e"))
+            return
+        if k == "match" and e.get("src") == "Normal":
+            visit(e.get("e"))
+            sd = desc(e["e"]).lstrip("^")
+            if sd in vals and not any(a.get("g") for a in e["arms"]):
+                i = thir.first_arm(e, vals[sd])
+                if i is not None:
+                    visit(e["arms"][i]["b"])
+                    return
+            und.append("match " + sd)
+            for a in e["arms"]:
+                visit(a.get("g"))
+                visit(a.get("b"))
+            return
+        if k == "call":
+            visit(e.get("a"))
+            f = thir.peel(e.get("fn"))
+            if not (isinstance(f, dict) and f.get("k") == "fn"):
+                visit(e.get("fn"))
+            out.append(e)
+            return
+        if k == "let":
+            visit(e.get("i"))
+            visit(e.get("else"))
+            return
+        for kk, vv in e.items():
+            if isinstance(vv, (dict, list)) and kk not in ("p", "fn"):
+                visit(vv)
+    visit(root)
+    return out, und
